@@ -423,6 +423,18 @@ class InvSpeed(Inv):
                         yield dict(v, j=j, newval=11, newnan=False, newlat=21, newlatnan=False)
                 else:
                     yield v
+        if self.params["tr"] == "local":
+            # as for location_test: a repeated first fix and a threshold inside the fractional metre of a later hop
+            import math
+
+            from pyvc import libmodels
+
+            lon = [10, 10, 10.01, 10.02, 10.03, 10.04, 10.09]
+            lat = [20] * 7
+            d = libmodels.concrete_geod(lat[4], lon[4], lat[5], lon[5])
+            thr = math.floor(d) + (d - math.floor(d)) / 2
+            for j in (0, 1):
+                yield dict(self.tvalues({"n": 7, "lon": list(lon), "lat": list(lat), "t": [i * 10**9 for i in range(7)], "sus": thr, "fail": 10 * thr}), j=j, newval=11, newnan=False, newlat=21, newlatnan=False, keep=1)
 
 
 class InvLocation(Inv):
@@ -470,6 +482,19 @@ class InvLocation(Inv):
                     v["rmax"] = 1000
                 for j in range(n):
                     yield dict(v, j=j, newval=11, newnan=False, newlat=21, newlatnan=False)
+        if self.params["rmax"]:
+            # a track that repeats its first fix, and a hop far down the track whose real geodesic length lies
+            # within a fraction of a metre of range_max: changing observation 0 or 1 must not touch that hop
+            import math
+
+            from pyvc import libmodels
+
+            lon = [10, 10, 10.01, 10.02, 10.03, 10.04, 10.09]
+            lat = [20] * 7
+            d = libmodels.concrete_geod(lat[4], lon[4], lat[5], lon[5])
+            for r in (math.floor(d) + (d - math.floor(d)) / 2, float(math.floor(d))):
+                for j in (0, 1):
+                    yield {"n": 7, "lon": list(lon), "lat": list(lat), "minx": -180, "miny": -90, "maxx": 180, "maxy": 90, "rmax": r, "j": j, "newval": 11, "newnan": False, "newlat": 21, "newlatnan": False, "keep": 1}
 
 
 class InvGross(Inv):
